@@ -110,7 +110,7 @@ Section CollReads.
   Notation Rep := (@RepC V compact).
   Notation get := (aget bytes_eqb).
 
-  Lemma clear_ref clock (c : coll V) a : Rep clock c -> sim c a -> sim (clear_coll compact c) (@nil (bytes * V)) \/ c_meta c = None.
+  Lemma clear_ref clock lazy (c : coll V) a : Rep clock c -> sim c a -> sim (clear_coll lazy c) (@nil (bytes * V)) \/ c_meta c = None.
   Proof.
     intros R S. unfold clear_coll. destruct (c_meta c) as [m|] eqn:E; [left|right; reflexivity].
     unfold sim, abs_c, exists_coll. cbn [c_meta]. apply meq_refl. constructor.
@@ -129,8 +129,8 @@ Section HashRef2.
   Notation Rep := (@RepC bytes compact).
   Notation get := (aget bytes_eqb).
 
-  Lemma hclear_ref clock key c a : Rep clock c -> sim c a ->
-    wref clock (Map.hclear compact key) (Spec.hclear key) c a.
+  Lemma hclear_ref clock ts key c a : Rep clock c -> sim c a ->
+    wref clock (Map.hclear compact ts key) (Spec.hclear key) c a.
   Proof.
     intros R S. unfold wref, Map.hclear, Spec.hclear.
     destruct (negb (key_ok key)); cbn [fst snd]; [split; [reflexivity|exact S]|].
@@ -138,7 +138,7 @@ Section HashRef2.
     destruct a as [|p a']; cbn [length] in Hs.
     - assert (st_size c =? 0 = true) as -> by lia. cbn [fst snd]. split; [reflexivity|exact S].
     - assert (st_size c =? 0 = false) as -> by lia. cbn [fst snd]. split; [reflexivity|].
-      destruct (clear_ref compact clock c (p :: a') R S) as [H|H]; [exact H|].
+      destruct (clear_ref compact clock (lazy_clear compact ts (st_ver c)) c (p :: a') R S) as [H|H]; [exact H|].
       exfalso. unfold st_size in Hs. rewrite H in Hs. lia.
   Qed.
 
@@ -285,8 +285,8 @@ Section SetRef.
     unfold srem_body. destruct (del_loop (dedup [] ms) a) as [h n]. cbn [fst snd] in *. split; [f_equal; exact C'|exact S'].
   Qed.
 
-  Lemma sclear_ref clock key c a : Rep clock c -> sim c a ->
-    swref (Map.sclear compact key) (Spec.sclear key) c a.
+  Lemma sclear_ref clock ts key c a : Rep clock c -> sim c a ->
+    swref (Map.sclear compact ts key) (Spec.sclear key) c a.
   Proof.
     intros R S. unfold swref, Map.sclear, Spec.sclear.
     destruct (negb (key_ok key)); cbn [fst snd]; [split; [reflexivity|exact S]|].
@@ -294,7 +294,7 @@ Section SetRef.
     destruct a as [|p a']; cbn [length] in Hs.
     - assert (st_size c =? 0 = true) as -> by lia. cbn [fst snd]. split; [reflexivity|exact S].
     - assert (st_size c =? 0 = false) as -> by lia. cbn [fst snd]. split; [reflexivity|].
-      destruct (clear_ref compact clock c (p :: a') R S) as [H|H]; [exact H|].
+      destruct (clear_ref compact clock (lazy_clear compact ts (st_ver c)) c (p :: a') R S) as [H|H]; [exact H|].
       exfalso. unfold st_size in Hs. rewrite H in Hs. lia.
   Qed.
 
